@@ -1529,7 +1529,7 @@ def run(ctx):
     corp = get_corpus()
     base_img = make_base_image()
     ctx.level = 'exploration'
-    budget = ctx.budget or (115 if ctx.quick else 1150)
+    budget = ctx.budget or (200 if ctx.quick else 1500)
 
     evaluations = [0]
     per_depth = collections.Counter()
